@@ -816,7 +816,8 @@ def pout_coq(obs):
     if k == 'payload':
         return '(PPayload %s)' % attrs_coq(obj_attrs(obs[1], P_ATTR))
     if k == 'fail':
-        return '(PFail %s %s %s)' % (cp.z(obs[1].value), cp.z(obs[2].value), cp.byts(obs[3].encode('utf-8')))
+        return '(PFail %s %s %s)' % (cp.z(obs[1].value), cp.z(obs[2].value),
+                                    opt_coq(obs[3].encode('utf-8') if obs[3] is not None else None, cp.byts))
     return 'PExc'
 
 
